@@ -176,6 +176,11 @@ class World:
                 body.update(supply=0.0, demand=0.0, utilisation=0.0, allocation=0.0)
             if layer["init"] is not None:
                 body["__init__"] = self._make_init(idx, layer["init"])
+            elif sp.get("noinit") and j == len(layers) - 1:
+                # `class D(PoolDecorator): pass`: no constructor of its own.  To see its constructions all the same, the
+                # class gets a pass-through that IS the inherited constructor for inspect (functools.wraps: the signature
+                # is read through __wrapped__) and for binding (it calls it with whatever it is given)
+                body["__init__"] = self._make_passthrough(idx, cls)
             if sp.get("falsy") and j == 0:
                 body["__len__"] = lambda self: 0
             cls = type(cls)("G%d_%d" % (idx, j), (cls,), body)
@@ -183,6 +188,19 @@ class World:
                 cls = service(flavour=threading)(cls)
             self.layer_classes.setdefault(idx, []).append(cls)
         return cls
+
+    def _make_passthrough(self, idx, base):
+        inherited = base.__init__
+        world = self
+
+        @functools.wraps(inherited)
+        def __init__(self, *args, **kwargs):
+            inherited(self, *args, **kwargs)
+            bound = inspect.signature(inherited).bind(self, *args, **kwargs).arguments
+            world.bindings[id(self)] = {k: v for k, v in list(bound.items())[1:]}
+            world.log.append((self, idx, args, dict(kwargs)))
+
+        return __init__
 
     def _make_init(self, idx, s):
         names = [p[0] for p in s["po"] + s["pk"]] + ([s["va"]] if s["va"] else []) \
@@ -320,14 +338,18 @@ def rnd_class(rng, kind):
     layers = []
     for j in range(nl):
         base_most = j == nl - 1
-        # (the base-most layer always has a constructor of its own: constructions are observed through the classes' own
-        #  __init__; `class D(PoolDecorator): pass` is therefore NOT generated - a stated limit, see seeded change C04_v2)
+        # (classes without any constructor of their own are made below: `noinit`)
         has_init = base_most or rng.random() < 0.5
         layers.append({"service": rng.random() < 0.3, "init": rnd_sig(rng, kind) if has_init else None})
     if rng.random() < 0.5:          # most classes: not wrapped at all, so that the exact check is exercised
         for layer in layers:
             layer["service"] = False
     sp = {"kind": kind, "layers": layers}
+    if kind != "P" and rng.random() < 0.12:
+        # no constructor of its own anywhere: the interface class's constructor (taking the target) is inherited
+        sp["noinit"] = True
+        for layer in layers:
+            layer["init"] = None
     if kind != "C" and rng.random() < 0.12:
         sp["falsy"] = True       # instances are empty containers (len 0): falsy objects are objects all the same
     return sp
